@@ -137,11 +137,34 @@ func (i *interpreter) strEq(x, y value) value {
 	}
 	rx, ry := runesOf(x), runesOf(y)
 	if len(rx) != len(ry) {
+		for _, e := range rx {
+			if _, isO := e.(opaqueSeg); isO {
+				panic(pathAbort{abortUnsupported, "comparison involving opaque formatted text"})
+			}
+		}
+		for _, e := range ry {
+			if _, isO := e.(opaqueSeg); isO {
+				panic(pathAbort{abortUnsupported, "comparison involving opaque formatted text"})
+			}
+		}
 		return false
+	}
+	for k := range rx {
+		ox, isOx := rx[k].(opaqueSeg)
+		oy, isOy := ry[k].(opaqueSeg)
+		if isOx || isOy {
+			if isOx && isOy && ox.id == oy.id {
+				continue
+			}
+			panic(pathAbort{abortUnsupported, "comparison involving opaque formatted text"})
+		}
 	}
 	b := i.path.B
 	acc := b.BoolC(true)
 	for k := range rx {
+		if _, isO := rx[k].(opaqueSeg); isO {
+			continue
+		}
 		acc = b.And(acc, b.Eq(i.term(rx[k]), i.term(ry[k])))
 		if acc.IsFalse() {
 			return false
